@@ -219,7 +219,7 @@ fn calculate_selection<'a>(
                         }
                     }
 
-                    for (_selection_id, _selection, variant_selection) in variant_selections {
+                    for (_selection_id, selection, variant_selection) in variant_selections {
                         match variant_selection {
                             VariantSelection::InlineFragment(_) => {
                                 calculate_selection(
